@@ -20,6 +20,12 @@
                                       next() as a callback (it may panic), called once
                                       before every item and once more for the final None;
                                       each call is logged by the model as [EvCall 1];
+                                      [on_unwind (unwind_pairs E l) c] (Model/Slots.v) = run c,
+                                      and if c panics destroy the pairs of l (EvDrop events +
+                                      Drop callbacks) before unwinding further: the items not
+                                      yet yielded are locals of the loop's frame (they belong
+                                      to the source iterator) and die with it.  It does
+                                      nothing when c returns normally;
      from_iter E debug nx items     — the same loop on a fresh container (self = Map::new(),
                                       len 0), with the destructor of the partly built
                                       container run on unwinding (finally_drop).
@@ -49,7 +55,10 @@
 
    * "gives exactly the container obtained by inserting the items one at a time in order"
        C16_extend_loop_is_inserts : the loop IS, syntactically, pull / insert / drop the
-         displaced value / continue, item by item from the head of the sequence;
+         displaced value / continue, item by item from the head of the sequence (each of the
+         two steps wrapped in the unwinding cleanup of the items the source still holds:
+         all remaining items if next() panics, those after the current one if insert or the
+         Drop of the displaced value panics);
        C16_extend_loop_lawful     : from ANY well-formed starting container (Extend) it ends
          with elems = the l_extend of the starting elems (capacity unchanged), and it panics
          only if l_extend = None;
@@ -99,9 +108,8 @@ Theorem C16_extend_loop_is_inserts :
        match its with
        | [] => call_next nx
        | (k, v) :: rest =>
-           call_next nx ;;
-           old <- insert E debug k v ;;
-           drop_opt_val E old ;;
+           on_unwind (unwind_pairs E its) (call_next nx) ;;
+           on_unwind (unwind_pairs E rest) (old <- insert E debug k v ;; drop_opt_val E old) ;;
            go rest
        end) items.
 Proof. exact (@extend_loop_is_inserts). Qed.
